@@ -25,6 +25,7 @@ DIMSETS = {
     "or2_r3": [("o", "Origin region", ["EUR", "USA"], str), ("r", "Region", ["CHN", "IND", "BRA"], str)],  # a name inside another name
     "o2_r3n": [("o", "Origin", ["EU", "US"], str), ("r", "Region", ["EU", "US", "CN"], str)],  # one item set inside another (still different sets)
     "n3i_r2": [("n", "Offset", [-1, 0, 2], int), ("r", "Region", ["r1", "r2"], str)],  # negative integer items
+    "a3i0": [("a", "Age", [0, 1, 2], int)],  # a 1-d array whose items are exactly the default row numbers 0..n-1
     "a3i0_e2": [("a", "Age", [0, 1, 2], int), ("e", "Element", ["", "Fe"], str)],  # labels that are falsy in Python
 }
 
